@@ -251,6 +251,6 @@ if __name__ == "__main__":
     import sys
     from .common import check_main
 
-    sys.exit(check_main("C09", run, replay=replay,
+    sys.exit(check_main("C09", run, replay=replay, models=["lock"],
                         technique_note="Lean 4 theorems over the Lock LTS (all event lists) + trace "
                                        "validation of the real Lock against the model + history oracle"))
